@@ -241,12 +241,13 @@ def check_case(root, cb, plats, subprocess_too=False):
         if plats:
             covp = os.path.join(root, "cov-sub.json")
             r = cli.run_subprocess("cov", ["compute", "-S", root, f"{plats[0]}.json", "-o", covp], root)
-            r2 = cli.run("cov", ["compute", "-S", root, f"{plats[0]}.json", "-o", covp + ".in"], root)
+            covi = os.path.join(root, "cov-inproc.json")
+            r2 = cli.run("cov", ["compute", "-S", root, f"{plats[0]}.json", "-o", covi], root)
             try:
-                same = json.load(open(covp)) == json.load(open(covp + ".in"))
+                same = r2["rc"] == 0 and json.load(open(covp)) == json.load(open(covi))
             except Exception:  # noqa
                 same = False
-            for p_ in (covp, covp + ".in"):
+            for p_ in (covp, covi):
                 if os.path.exists(p_):
                     os.unlink(p_)
             if r["rc"] != 0 or not same:
@@ -310,13 +311,14 @@ def _work(arg):
     n = 0
     out = []
     nontriv = 0
+    pick = max(range(len(cases)), key=lambda j: len(cases[j][1])) if cases else 0      # the subprocess slice takes the case with most platforms
     for i, (cb, plats) in enumerate(cases):
         root = os.path.join(root_base, f"c{i}")
         os.makedirs(root)
         n += 1
         if len(plats) >= 2:
             nontriv += 1
-        b = check_case(root, cb, plats, subprocess_too=(sub and i == 0))
+        b = check_case(root, cb, plats, subprocess_too=(sub and i == pick))
         for kind, exp, obs in b[:2]:
             out.append(Failure(kind, {"codebase": list(cb), "platforms": plats}, expected=exp, observed=obs))
         import shutil
